@@ -77,3 +77,43 @@ fn n_inforeq_alloc_layout() {
     }
     std::println!("n_inforeq_alloc_layout: {cases} cases");
 }
+
+// BOUNDED NATIVE STAND-IN for C07 / C12 at list lengths beyond the Kani harnesses (n <= 4):
+// the information-request constructor with 0..=3000 requests against the specification's
+// encoding (type 1, flags, size 8 + 4n, n little-endian u32 words), read back, cloned through
+// the header builder and walked.
+#[test]
+fn n_inforeq_large_lists() {
+    use std::vec::Vec;
+    use crate::{HeaderTagISA, Multiboot2Header};
+    let mut cases = 0u32;
+    for n in (0usize..=20).chain([63, 64, 65, 255, 256, 1000, 2035, 2036, 3000]) {
+        for flags in [HeaderTagFlag::Required, HeaderTagFlag::Optional] {
+            let reqs: Vec<MbiTagTypeId> = (0..n).map(|i| MbiTagTypeId::new(0x0100_0000u32.wrapping_mul(i as u32 % 251) + i as u32)).collect();
+            let t = InformationRequestHeaderTag::new(flags, &reqs);
+            let b = t.as_bytes();
+            let size = 8 + 4 * n;
+            assert_eq!(b.as_ptr() as usize % 8, 0);
+            assert_eq!(b.len(), (size + 7) & !7);
+            let mut want = Vec::new();
+            want.extend_from_slice(&1u16.to_le_bytes());
+            want.extend_from_slice(&(flags as u16).to_le_bytes());
+            want.extend_from_slice(&(size as u32).to_le_bytes());
+            for r in &reqs {
+                want.extend_from_slice(&u32::from(*r).to_le_bytes());
+            }
+            assert_eq!(&b[..size], &want[..], "information request with {n} entries");
+            assert_eq!((t.size() as usize, t.flags(), t.requests()), (size, flags, &reqs[..]));
+            // through the builder: the walk finds it byte-identically, followed by the end tag
+            let built = crate::Builder::new(HeaderTagISA::I386).information_request_tag(InformationRequestHeaderTag::new(flags, &reqs)).build();
+            let bytes = built.as_bytes();
+            let h = unsafe { Multiboot2Header::load(bytes.as_ptr().cast()) }.expect("built header must load");
+            assert_eq!(h.length() as usize, 16 + ((size + 7) & !7) + 8);
+            let got = h.information_request_tag().expect("information request tag present");
+            assert_eq!(&got.as_bytes()[..size], &want[..]);
+            assert_eq!(h.iter().count(), 2);
+            cases += 1;
+        }
+    }
+    std::println!("n_inforeq_large_lists: {cases} cases");
+}
